@@ -380,7 +380,7 @@ class Glyph(BaseObject):
             self.verticalOrigin = yMax + value
             self.height += diff
             self.dirty = True
-            self.postNotification(notification="Glyph.TopMarginWillChange", data=dict(oldValue=oldValue, newValue=value))
+            self.postNotification(notification="Glyph.TopMarginDidChange", data=dict(oldValue=oldValue, newValue=value))
 
     topMargin = property(_get_topMargin, _set_topMargin, doc="The top margin of the glyph. Setting this posts *Glyph.HeightChanged*, *Glyph.VerticalOriginChanged*, *Glyph.TopMarginWillChange*, *Glyph.TopMarginDidChange*  and *Glyph.Changed* notifications among others.")
 
